@@ -11,7 +11,8 @@
    - four refuting witnesses, one per recorded deviation (F31-F34);
    - repaired since: F63 (TYPE_CHECKING conditions), F65 (m.py next to a package m/: C12_edges_wf_shadowed drops the
      "one file per module name" exclusion), F62 (namespace packages and include_third_party:
-     C12_include_third_party_irrelevant holds for every project);
+     C12_include_third_party_irrelevant holds for every project; project_shape, the shape part of wf_project, no longer
+     demands an __init__.py in every directory: C12_wf_admits_namespace_packages, C12_check_edges_wf);
    - UNBOUNDED (Deps/ImportsAgree.v, no enumeration):
        C12_edges_wf      : forall pr, wf_project pr = true -> same_edges (edges_model pr) (edges_py pr) = true
        C12_edges_wf_own  : forall pr, wf_mod_own_strong pr = true ->
@@ -144,10 +145,11 @@ Theorem C12_relative_import_agrees : forall m lv p,
 Proof. exact relative_import_agrees. Qed.
 
 (* absolute imports: without a same-named module beside or one directory above the importing file (abs_ok, the
-   negation of F31) the import resolves to the module of that name, or to nothing that is a project module *)
+   negation of F31) the import resolves to the module of that name (a project module, a namespace directory of the
+   project or a third-party name), or - a standard-library name - to nothing *)
 Theorem C12_absolute_import_agrees : forall pr m p, p <> [] -> abs_ok pr m p = true ->
   resolveAbsoluteImportWithProject pr m p = Some p \/
-  (is_module pr p = false /\ resolveAbsoluteImportWithProject pr m p = None).
+  (is_module pr p = false /\ isStandardLibrary p = true /\ resolveAbsoluteImportWithProject pr m p = None).
 Proof. exact absolute_import_agrees. Qed.
 
 (* re-exports: "from t import n" is resolved like CPython binds it, for every t and n, except when the __init__ of t
@@ -290,6 +292,24 @@ Theorem C12_include_stdlib_matters_for_stdlib_named_namespace :
   edges_model_o (Build_opts false true true []) w_stdlib_namespace = [].
 Proof. exact include_stdlib_matters. Qed.
 
+(* the graph `pyscn check --select deps` builds is the graph of `pyscn analyze` (every project, every file order), and so
+   Python's graph for every well-formed project: the unbounded theorem speaks about `check` too (C11 F66) *)
+Theorem C12_check_graph_is_analyze_graph : forall pr order,
+  AnalyzeFiles_o check_opts pr order = AnalyzeFiles_o default_opts pr order.
+Proof. exact check_graph_is_analyze_graph. Qed.
+
+Theorem C12_check_edges_wf : forall pr, star_free pr = true -> wf_project pr = true ->
+  same_edges (edges_model_o check_opts pr) (edges_py pr) = true.
+Proof. exact check_edges_wf. Qed.
+
+(* project_shape (hence wf_project and every theorem above) no longer demands an __init__.py in every directory that
+   holds a module: namespace packages are allowed unless they are named like a standard-library module.  The former
+   shape is project_shape_strict *)
+Theorem C12_wf_admits_namespace_packages :
+  (wf_project w_namespace = true /\ project_shape_strict w_namespace = false /\ star_free w_namespace = true) /\
+  (forall pr, project_shape_strict pr = true -> project_shape pr = true).
+Proof. exact (conj wf_admits_namespace project_shape_strict_shape). Qed.
+
 (* the former witness of F62 / C11 F66 (two modules of a namespace package that import each other): the cycle is in the
    graph with the default options and with the options of `pyscn check --select deps` *)
 Theorem C12_namespace_cycle_found :
@@ -368,6 +388,9 @@ Print Assumptions C12_follow_relative_off.
 Print Assumptions C12_include_third_party_irrelevant.
 Print Assumptions C12_include_options_irrelevant.
 Print Assumptions C12_include_stdlib_matters_for_stdlib_named_namespace.
+Print Assumptions C12_check_graph_is_analyze_graph.
+Print Assumptions C12_check_edges_wf.
+Print Assumptions C12_wf_admits_namespace_packages.
 Print Assumptions C12_namespace_cycle_found.
 Print Assumptions C12_edges_refuted_src_layout.
 Print Assumptions C12_edges_refuted_wildcard_reexport.
